@@ -72,7 +72,7 @@ class Ctx:
 
     # ------------------------------------------------------------------ stages
     def stage(self, name, engine, cfg, arg_lists, timeout=900, build_kwargs=None,
-              attribute_crash_to=None, restarts=3, jobs=None):
+              attribute_crash_to=None, restarts=3, jobs=None, adopt_violations=False):
         """Build engine/cfg, run one worker per argument list, merge reports.
 
         arg_lists: list of argument lists (each must contain --seed/--cases/--first as needed).
@@ -99,7 +99,7 @@ class Ctx:
             cont = []
             for r in rs:
                 results.append(r)
-                self._merge(r, engine, cfg, build_kwargs)
+                self._merge(r, engine, cfg, build_kwargs, adopt_violations)
                 if r.crash is not None:
                     self._crash(r, engine, cfg, build_kwargs, attribute_crash_to or self.prop)
                     resume = self._resume_args(r)
@@ -152,7 +152,7 @@ class Ctx:
         a[a.index("--cases") + 1] = str(remaining)
         return a
 
-    def _merge(self, r, engine, cfg, build_kwargs):
+    def _merge(self, r, engine, cfg, build_kwargs, adopt_violations=False):
         rep = r.report
         if rep is None:
             return
@@ -177,6 +177,12 @@ class Ctx:
                 # a self-check of the machinery failed: nothing this run says can be trusted
                 self.inconclusive.append("harness self-check failed: %s: %s" % (v.get("key"), str(v.get("what"))[:300]))
             elif v.get("property", self.prop) == self.prop:
+                self.violations.append(v)
+            elif adopt_violations:
+                # this stage runs another property's workload in a configuration whose only difference is what this
+                # property quantifies over: whatever that workload's oracles report there is a violation of this property
+                v["key"] = "%s/%s[%s]" % (cfg, v.get("key"), v.get("property"))
+                v["property"] = self.prop
                 self.violations.append(v)
             else:
                 self.other_violations.append(v)
